@@ -47,6 +47,8 @@ func c03NewDecoderInterp(p *core.Program, sc c03Scenario) *c03Interp {
 			return c03ScenarioString(sc.Elem, v.T)
 		case c03IsXMLName(v, "elem", "encoding/xml.Attr"):
 			return c03ScenarioString(sc.Attr, v.T)
+		case v.K == c03KInit && v.Root.Kind == "param" && namedPath(v.Root.T) == "encoding/xml.StartElement" && len(v.Path) == 1 && v.Path[0].Name() == "Attr":
+			v.Z = triF // the start element handed in carries attributes: every form of loop over them is entered
 		}
 		return nil
 	}}
@@ -66,8 +68,20 @@ func c03CompareStrings(p *core.Program, fi *FuncInfo) []string {
 				set[s] = true
 			}
 		}
-		ast.Inspect(f.Decl.Body, func(n ast.Node) bool {
+		var scan func(n ast.Node) bool
+		seenGlobal := map[*types.Var]bool{}
+		scan = func(n ast.Node) bool {
 			switch x := n.(type) {
+			case *ast.Ident:
+				// a dispatch table: string keys of a package-level map the function consults
+				if o, ok := info.Uses[x].(*types.Var); ok && o.Pkg() != nil && o.Parent() == o.Pkg().Scope() && !seenGlobal[o] {
+					seenGlobal[o] = true
+					if init, _ := c03FindGlobalInit(p, o); init != nil {
+						ast.Inspect(init, scan)
+					}
+				}
+			case *ast.KeyValueExpr:
+				add(x.Key)
 			case *ast.CaseClause:
 				for _, e := range x.List {
 					add(e)
@@ -85,7 +99,8 @@ func c03CompareStrings(p *core.Program, fi *FuncInfo) []string {
 				}
 			}
 			return true
-		})
+		}
+		ast.Inspect(f.Decl.Body, scan)
 	}
 	return c03SortedKeys(set)
 }
@@ -245,6 +260,9 @@ func (it *c03Iter) touches(obj *c03V, from *c03Event) (stores, escapes []c03Even
 			return false
 		}
 		if v.Ident() == id {
+			return true
+		}
+		if v.K == c03KRef && v.Base != nil && v.Base.Ident() == id {
 			return true
 		}
 		if v.K == c03KUnk && v.Call == nil {
